@@ -583,6 +583,16 @@ func buildModule(o *opInfo, imm []byte, constTuples [][]v128) []byte {
 			m.AddFunc(wb.Func{Params: ps, Results: []byte{wb.I32}, Export: c.name, Body: wb.Cat(pre, wb.LocalGet(np), []byte{c.opc})})
 		}
 		m.AddFunc(wb.Func{Params: ps, Results: []byte{wb.I32}, Export: "q_eqz", Body: wb.Cat(pre, wb.LocalGet(np), []byte{wasm.OpcodeI32Xor, wasm.OpcodeI32Eqz})})
+		// "condition" placement: the result is the condition of a branch / if / select in the same function (with and
+		// without a negation in between): instruction selection fuses a single-use comparison into its consumer, and
+		// the fused form is a different lowering (flag combinations for float equality with NaN operands, inverted
+		// conditions) from the one that materialises 0/1
+		m.AddFunc(wb.Func{Params: o.params, Results: []byte{wb.I32}, Export: "k_brif", Body: wb.Cat([]byte{wasm.OpcodeBlock, wb.I32}, wb.I32Const(1), pre, []byte{wasm.OpcodeBrIf, 0, wasm.OpcodeDrop}, wb.I32Const(0), []byte{wasm.OpcodeEnd})})
+		m.AddFunc(wb.Func{Params: o.params, Results: []byte{wb.I32}, Export: "k_nbrif", Body: wb.Cat([]byte{wasm.OpcodeBlock, wb.I32}, wb.I32Const(0), pre, []byte{wasm.OpcodeI32Eqz, wasm.OpcodeBrIf, 0, wasm.OpcodeDrop}, wb.I32Const(1), []byte{wasm.OpcodeEnd})})
+		m.AddFunc(wb.Func{Params: o.params, Results: []byte{wb.I32}, Export: "k_if", Body: wb.Cat(pre, []byte{wasm.OpcodeIf, wb.I32}, wb.I32Const(1), []byte{wasm.OpcodeElse}, wb.I32Const(0), []byte{wasm.OpcodeEnd})})
+		m.AddFunc(wb.Func{Params: o.params, Results: []byte{wb.I32}, Export: "k_nif", Body: wb.Cat(pre, []byte{wasm.OpcodeI32Eqz, wasm.OpcodeIf, wb.I32}, wb.I32Const(0), []byte{wasm.OpcodeElse}, wb.I32Const(1), []byte{wasm.OpcodeEnd})})
+		m.AddFunc(wb.Func{Params: o.params, Results: []byte{wb.I32}, Export: "k_sel", Body: wb.Cat(wb.I32Const(1), wb.I32Const(0), pre, []byte{wasm.OpcodeSelect})})
+		m.AddFunc(wb.Func{Params: o.params, Results: []byte{wb.I32}, Export: "k_brtab", Body: wb.Cat([]byte{wasm.OpcodeBlock, 0x40, wasm.OpcodeBlock, 0x40}, pre, []byte{wasm.OpcodeBrTable, 1, 0, 1, wasm.OpcodeEnd}, wb.I32Const(0), []byte{wasm.OpcodeReturn, wasm.OpcodeEnd}, wb.I32Const(1))})
 		// address use: result + static offset 1 must trap for 0xffffffff and beyond the single page
 		m.AddFunc(wb.Func{Params: o.params, Results: []byte{wb.I32}, Export: "q_addr", Body: wb.Cat(pre, wb.MemArg(wasm.OpcodeI32Load8U, 0, 1))})
 	}
@@ -1133,6 +1143,19 @@ func runOp(r *rand.Rand, o *opInfo, engines []engine, budget int) {
 						rep.Violate(hx.Violation{Kind: "impl-violation", Signature: fmt.Sprintf("C05:wrong-result-when-consumed:%s:%s", o.name, e.name),
 							What:  fmt.Sprintf("%s on %s: the specification gives %#x, but %s applied to the result and %#x in the same function answers %s (expected %s): the value the instruction leaves behind is not the canonical 32-bit value", o.name, e.name, w32, c.fn[2:], c.z, got, c.want),
 							Input: q + " ; " + c.fn, Expected: c.want, Actual: got})
+					}
+				}
+				for _, fn := range []string{"k_brif", "k_nbrif", "k_if", "k_nif", "k_sel", "k_brtab"} {
+					s, res := call(mods[i], fn, flat(o.params, tup))
+					got := s
+					if res != nil {
+						got = fmt.Sprint(uint32(res[0]))
+					}
+					rep.Case(o.name + "/condition/" + fn + "/" + q)
+					if got != b2s(w32 != 0) {
+						rep.Violate(hx.Violation{Kind: "impl-violation", Signature: fmt.Sprintf("C05:wrong-result-as-condition:%s:%s", o.name, e.name),
+							What:  fmt.Sprintf("%s on %s: the specification gives %#x, but used as the condition of %s in the same function it acts as %s (1 = non-zero)", o.name, e.name, w32, fn[2:], got),
+							Input: q + " ; " + fn, Expected: b2s(w32 != 0), Actual: got})
 					}
 				}
 				// as an address with static offset 1 in a one-page memory
